@@ -78,14 +78,38 @@ fn observe(tx: &MultiEraTx, idx: &[u64]) -> Out<Obs> {
 }
 
 fn coq_in(i: &In) -> String { format!("(0x{},{})", hex(&i.0), i.1) }
-fn coq_abs(a: &Abs) -> String {
-    format!("(mk_tx {} {} {} {} {} {})", coq_bool(a.byron), coq_bool(a.success), coq_list(&a.inputs, coq_in),
-        coq_list(&a.outputs, |o| o.to_string()), coq_list(&a.collateral, coq_in), coq_opt(&a.coll_ret, |o| o.to_string()))
+
+/// Compact names for the Coq terms (number literals are expensive to parse in Coq):
+/// a tx id is printed as its rank in byte-wise order among the ids of the case
+/// (computed here on the raw [u8; 32], not through Hash's Ord), an output digest as
+/// its number of first appearance.  Equality and order are preserved exactly.
+struct Names { ids: Vec<[u8; 32]>, outs: Vec<u64> }
+impl Names {
+    fn new(a: &Abs, o: &Out<Obs>) -> Names {
+        let mut ids: Vec<[u8; 32]> = a.inputs.iter().chain(a.collateral.iter()).map(|x| x.0).collect();
+        let mut outs: Vec<u64> = a.outputs.clone();
+        outs.extend(a.coll_ret.iter());
+        if let Out::Ok(o) = o {
+            ids.extend(o.consumes.iter().chain(o.sorted.iter()).map(|x| x.0));
+            outs.extend(o.produces.iter().map(|x| x.1));
+            outs.extend(o.at.iter().flatten());
+        }
+        ids.sort_by(|x, y| x.as_slice().cmp(y.as_slice()));
+        ids.dedup();
+        let mut seen = vec![]; for x in outs { if !seen.contains(&x) { seen.push(x); } }
+        Names { ids, outs: seen }
+    }
+    fn input(&self, i: &In) -> String { format!("({},{})", self.ids.iter().position(|x| *x == i.0).unwrap(), i.1) }
+    fn out(&self, o: &u64) -> String { self.outs.iter().position(|x| x == o).unwrap().to_string() }
 }
-fn coq_obs(o: &Out<Obs>) -> String {
+fn coq_abs(a: &Abs, n: &Names) -> String {
+    format!("(mk_tx {} {} {} {} {} {})", coq_bool(a.byron), coq_bool(a.success), coq_list(&a.inputs, |i| n.input(i)),
+        coq_list(&a.outputs, |o| n.out(o)), coq_list(&a.collateral, |i| n.input(i)), coq_opt(&a.coll_ret, |o| n.out(o)))
+}
+fn coq_obs(o: &Out<Obs>, n: &Names) -> String {
     match o {
-        Out::Ok(o) => format!("(Ok ({},{},{},{},{}))", coq_bool(o.valid), coq_list(&o.consumes, coq_in),
-            coq_list(&o.produces, |(i, x)| format!("({},{})", i, x)), coq_list(&o.at, |x| coq_opt(x, |v| v.to_string())), coq_list(&o.sorted, coq_in)),
+        Out::Ok(o) => format!("(Ok ({},{},{},{},{}))", coq_bool(o.valid), coq_list(&o.consumes, |i| n.input(i)),
+            coq_list(&o.produces, |(i, x)| format!("({},{})", i, n.out(x))), coq_list(&o.at, |x| coq_opt(x, |v| n.out(v))), coq_list(&o.sorted, |i| n.input(i))),
         _ => "(Panic 0)".into(),
     }
 }
@@ -135,12 +159,12 @@ impl Ctx {
         idx.extend_from_slice(&[n.saturating_sub(1), n, n + 1, u64::MAX, rng.below(n + 3), rng.edge_u64()]);
         let o = observe(tx, &idx);
         let replay = format!("{} era={:?} tx={}", replay_hint, tx.era(), hex(&tx.encode()));
-        self.oracle(&a, &idx, &o, &if replay.len() > 3000 { format!("{}… abstract={}", &replay[..3000], coq_abs(&a)) } else { replay });
+        self.oracle(&a, &idx, &o, &if replay.len() > 3000 { format!("{}…", &replay[..3000]) } else { replay });
         if a.byron { self.bump("byron") } else if a.success { self.bump("valid") } else { self.bump("invalid") }
         if first_occ(&a.inputs).len() != a.inputs.len() { self.bump("dup-inputs") }
         if first_occ(&a.collateral).len() != a.collateral.len() { self.bump("dup-collateral") }
         if a.coll_ret.is_some() { self.bump("with-collateral-return") }
-        if !self.oracle_only { emit_case(tag, &format!("({},{},{})", coq_abs(&a), coq_list(&idx, |i| i.to_string()), coq_obs(&o))); }
+        if !self.oracle_only { let nm = Names::new(&a, &o); emit_case(tag, &format!("({},{},{})", coq_abs(&a, &nm), coq_list(&idx, |i| i.to_string()), coq_obs(&o, &nm))); }
     }
 }
 
@@ -289,7 +313,7 @@ fn main() {
     let mut printed = 0usize;
     for (k, (name, era, bytes)) in corpus.iter().enumerate() {
         let Ok(tx) = MultiEraTx::decode_for_era(*era, bytes) else { cx.fail("corpus-redecode", format!("{} does not decode again", name)); continue };
-        let small = bytes.len() < 6000;
+        let small = bytes.len() < 3000;
         let to_model = small && (printed < budget || (k as u64 + args.seed) % 7 == 0);
         let save = cx.oracle_only; if !to_model { cx.oracle_only = true; }
         cx.run("corpus", &tx, &mut rng, name);
